@@ -97,7 +97,11 @@ func execAr(vec J, out *Writer) {
 				late = append(late, BB(d))
 			}
 		}()
-		out.Put(J{"ev": "ar", "in": vec, "steps": steps, "late": late, "panic": p != ""})
+		lateMeta := []interface{}{}
+		for _, e := range entries {
+			lateMeta = append(lateMeta, J{"name": B(e.Name), "mode": B(e.FileMode), "size": numJ(e.Size), "mtime": numJ(e.Timestamp)})
+		}
+		out.Put(J{"ev": "ar", "in": vec, "steps": steps, "late": late, "late_meta": lateMeta, "panic": p != ""})
 	case "arraw":
 		b := []byte(S(vec["bytes"]))
 		s1, _, p1 := iterateAr(b, false)
